@@ -195,6 +195,7 @@ func (x *Exec) Verify() *VerifyResult {
 	fr.entry = entry
 	x.entryMem = entry.mem
 	x.lockDiscipline = hasLabel(c.Clauses, "lockdiscipline", x.prop)
+	x.structuralOn = hasLabel(c.Clauses, "structural", x.prop)
 	x.guarded = map[string]bool{}
 	for _, cl := range c.ByKind("guarded") {
 		if x.prop == "" || cl.HasLabel(x.prop) {
